@@ -913,3 +913,107 @@ Proof.
     match goal with H : false = true |- _ => discriminate H end.
   - vm_compute. repeat split.
 Qed.
+
+(** ------------------------------------------------------------------------------------------
+    END-TO-END, in the property's words (second audit, N7; model/MultiRegion.v,
+    proofs/MultiRegionProofs.v).  "The region shows each member's most recently drawn rendering
+    exactly once, in logical order, directly below everything printed so far."
+    Scope: Top alignment, no I/O faults, proviso FitsAll (as C02_screen), valid histories from an
+    empty MultiProgress ([init_ok], [hist_ok]); any number of bars, every limiter state and time.
+    After EVERY call (h1 = any prefix):
+      - the rows ever written are  pre ++ wrap (lines printed so far) ++ kept rows ++ live rows,
+        then blank rows only;
+      - there is ONE list [ord] of bars - the logical order: duplicate-free, [ms_order] is its
+        image under "slot of", it contains exactly the members (every live member, and the dropped
+        ones not yet reaped) - such that the stored lines of the members in ordering order are
+        [concat (map (latest_frame lg s) ord)]: for each bar, once, [frame_of] the ghost state of
+        its slot, which is the logic state that bar really had right after its MOST RECENT draw
+        step (call number [le_step e] < |h1|), and its CURRENT state when in sync;
+      - when the history is [settled] - the last event that touched the rows or the stored lines
+        was a paint of all members: an attempted draw without text, an attempted println draw with
+        no dropped bar at the head, or a suspend - the LIVE ROWS ARE EXACTLY THAT:
+            live = wrap (concat (map (latest_frame lg s) ord)).
+    When it is not settled the screen still shows the previous painted frame: a call that paints
+    nothing leaves the ghost (kept and live rows) untouched (C02_refused_keeps_rows), and any call
+    that paints all members settles the history again whatever came before (C02_settled_after_paint).
+    The residue, exactly: after a member store whose draw was refused / remove_idx before its redraw /
+    MultiProgress::clear (rows erased, stored lines kept) / a println while a dropped bar is at the
+    head (observation O1: its rows stay below the text until the next draw) the live rows are those
+    of the last paint, not the current stored lines. *)
+From IndModel Require Import MultiRegion.
+From IndProofs Require Import MultiRegionProofs.
+
+Theorem C02_region_shows_latest_in_order : forall (W H : N) (pre : list (list N)) (s0 : sys) (t0 : term)
+    (h1 h2 : list (N * op)), 1 <= W -> 1 <= H ->
+  init_ok s0 -> ms_initial s0 -> ready (N.to_nat W) (N.to_nat H) pre t0 ->
+  MultiSpec.hist_ok W H nofaults s0 (h1 ++ h2) -> FitsAll W H s0 (h1 ++ h2) ->
+  let st := ms_run W H (s0, mghost0, t0) h1 in
+  let s := fst (fst st) in let g := snd (fst st) in let t := snd st in
+  let lg := snd (lrun W H nofaults s0 0 lg_empty h1) in
+  s = MultiSpec.run W H nofaults s0 h1
+  /\ (exists k, screen (N.to_nat W) t
+        = map (pad (N.to_nat W)) (pre ++ wrap (N.to_nat W) (hist_log W H s0 h1) ++ mg_kept g ++ mg_live g)
+          ++ repeat (repeat SP (N.to_nat W)) k)
+  /\ exists ord,
+       NoDup ord /\ ms_order (s_mp s) = map (slot_of s) ord
+       /\ (forall b, In b ord -> is_member s b = true)
+       /\ (forall b, alive s b = true -> is_member s b = true -> In b ord)
+       /\ bar_lines_of (s_mp s) = concat (map (latest_frame lg s) ord)
+       /\ (settled W H s0 h1 = true ->
+           mg_live g = wrap (N.to_nat W) (map lt (concat (map (latest_frame lg s) ord))))
+       /\ (forall b e, In b ord -> lg_slot lg (slot_of s b) = Some e ->
+             b_target (get_bar s (le_bar e)) = TMulti (slot_of s b)
+             /\ lg_last lg (le_bar e) = Some (le_step e) /\ (le_step e < length h1)%nat
+             /\ logic (le_state e)
+                = logic (get_bar (MultiSpec.run W H nofaults s0 (firstn (S (le_step e)) h1)) (le_bar e))
+             /\ (le_sync e = true -> logic (le_state e) = logic (get_bar s (le_bar e)))).
+Proof. exact region_shows_latest_in_order. Qed.
+Print Assumptions C02_region_shows_latest_in_order.
+
+(** a call that paints all members (its own MultiState calls set the flag from [false]) settles *)
+Theorem C02_settled_after_paint : forall (W H : N) (s0 : sys) (h : list (N * op)) (now : N) (o : op),
+  paints_all W H (MultiSpec.run W H nofaults s0 h) now o = true -> settled W H s0 (h ++ [(now, o)]) = true.
+Proof. exact settled_after_paint. Qed.
+Print Assumptions C02_settled_after_paint.
+
+(** a call whose draws are all refused (and that does not clear, suspend, write or reap the head)
+    leaves the kept and live rows - the previous painted frame - as they are *)
+Theorem C02_refused_keeps_rows : forall (W H : N) (s : sys) (g : mghost) (t : term) (now : N) (o : op),
+  paints_nothing W H s now o = true -> snd (fst (ms_step W H (s, g, t) (now, o))) = g.
+Proof. exact refused_keeps_rows. Qed.
+Print Assumptions C02_refused_keeps_rows.
+
+(* ------------------------------------------------------------------ non-vacuity (end-to-end) *)
+(** the screen-level example history (3 bars on 6 x 10: println, finish + drop reaped from the
+    head, tick, member println, suspend, clear, tick) is settled at its end - the live rows are
+    "B0", "C3" = the latest drawn states of B and C in logical order -, not settled right after
+    the clear (call 13: rows erased, stored lines kept), and every tick / finish / println / suspend
+    in it paints all members *)
+Example C02_region_example :
+  let st := ms_run 6 10 (exm_s0, mghost0, term_init) exm_ops in
+  let lg := snd (lrun 6 10 nofaults exm_s0 0 lg_empty exm_ops) in
+  init_ok exm_s0
+  /\ settled 6 10 exm_s0 exm_ops = true
+  /\ settled 6 10 exm_s0 (firstn 13 exm_ops) = false
+  /\ mg_live (snd (fst st)) = wrap 6 (map lt (concat (map (latest_frame lg (fst (fst st))) [1; 2])))
+  /\ map (latest_frame lg (fst (fst st))) [1; 2] = [[mkline KBar [66;48]]; [mkline KBar [67;51]]]
+  /\ map (fun k => paints_all 6 10 (MultiSpec.run 6 10 nofaults exm_s0 (firstn k exm_ops))
+                              (fst (nth k exm_ops (0, OMClear))) (snd (nth k exm_ops (0, OMClear))))
+         [3; 6; 7; 10; 11; 13]%nat = [true; true; true; true; true; true].
+Proof.
+  split.
+  - repeat split. intros b. unfold is_member, get_bar, nthN. destruct (N.to_nat b) as [|[|[|[|n]]]]; reflexivity.
+  - vm_compute. repeat split.
+Qed.
+
+(** a refused draw: on the 1 Hz history of the latest-drawn-state section the three updates of A
+    paint nothing, the history is not settled after them - the screen shows the previous frame
+    while A's stored line is already "A:50/200 two" -, and B's painted set_message settles it *)
+Example C02_refused_example :
+  map (fun k => paints_nothing 40 20 (MultiSpec.run 40 20 nofaults ml_s0 (firstn k ml_h1))
+                               (fst (nth k ml_h1 (0, OMClear))) (snd (nth k ml_h1 (0, OMClear))))
+      [22; 23; 24]%nat = [true; true; true]
+  /\ settled 40 20 ml_s0 ml_h1 = false
+  /\ paints_all 40 20 (MultiSpec.run 40 20 nofaults ml_s0 ml_h1) (fst ml_o) (snd ml_o) = true
+  /\ settled 40 20 ml_s0 (ml_h1 ++ [ml_o]) = true.
+Proof. vm_compute. repeat split. Qed.
